@@ -19,7 +19,7 @@ META = dict(
           "the optimum over all partitions and equals it when the window covers the whole continuum; the fast-gamma job uses the exact algorithm iff "
           "best_window_size is inf and samples inherit the window size (copy_flush).",
     trusted="z3; the contract of get_best_alignment (C01/C02/C03 decide it); independent all-partitions oracle; real arithmetic instead of float32",
-    bounds=dict(quick="sizes (1,1),(2,1),(1,1,1),(2,2),(0,2),(2,1,0) x window sizes 1..2", thorough="+ (3,2),(2,2,1),(3,1) x window sizes 1..3"),
+    bounds=dict(quick="(+ shape (2,1,1) with window 1: three annotators and more units than one window takes) sizes (1,1),(2,1),(1,1,1),(2,2),(0,2),(2,1,0) x window sizes 1..2", thorough="+ (3,2),(2,2,1),(3,1) x window sizes 1..3"),
     outside="windows with more than 5 units; measure_best_window_size's cost model (concrete arithmetic, not a property of the result)",
     stubs=["Continuum.get_best_alignment = contract (fork over the oracle's exact covers of the window, assume optimal)", "dissimilarity = one free symbol >= 0 per unit pair, d and d_mat consistent"],
     assumptions=["units of one annotator listed by strictly increasing start", "pair dissimilarities symmetric and >= 0", "delta_empty > 0"],
